@@ -144,6 +144,11 @@ class NpProxy:
     def array(self, obj, dtype=None, **kw):
         if _active() and _has_sym(obj) and (dtype is None or _float_dtype(dtype)):
             a = _np.array(obj, dtype=object, **{k: v for k, v in kw.items() if k != "dtype"})
+            # numpy would upcast the python ints of a mixed list to float64: keep that (type-dispatched code relies on it)
+            flat = a.reshape(-1)
+            for i in range(flat.size):
+                if type(flat[i]) is int:
+                    flat[i] = float(flat[i])
             return a
         if _active() and dtype is not None and _float_dtype(dtype) and isinstance(obj, _np.ndarray) and obj.dtype == object:
             return _np.array(obj, dtype=object)
